@@ -82,7 +82,9 @@ INVARIANTS = {'ContactHandler': [
                        'self._conhead_peer is None and self._sessinit_this is None and self._sessinit_peer is None)'),
     ('active_init_sent', 'implies(self._in_conn and not self._as_passive and not closed(self), '
                          'self._sessinit_this is not None)'),
+    ('passive_init_order', 'implies(self._as_passive and self._sessinit_peer is None, self._sessinit_this is None)'),
     ('peer_init_after_ours', 'implies(self._sessinit_peer is not None, self._in_sess)'),
+    ('tls_after_contact', 'implies(not self._in_conn, not secured(self))'),
     ('flags_nonneg', 'implies(self._conhead_this is not None, self._conhead_this.flags >= 0) and '
                      'implies(self._conhead_peer is not None, self._conhead_peer.flags >= 0)'),
     # --- I6 coupling with the output automaton ---------------------------------
@@ -97,10 +99,11 @@ INVARIANTS = {'ContactHandler': [
     ('timers_ok', 'timers_ok(self)'),
     ('timers_in_sess', 'implies(self._keepalive_timer_id is not None or self._idle_timer_id is not None, '
                        'self._in_sess and not closed(self))'),
-    ('timer_values', 'self._keepalive_time >= 0'),
+    ('timer_values', 'self._keepalive_time >= 0 and '
+                     'implies(not self._in_sess, self._keepalive_time == 0 and self._idle_time == 0)'),
     # --- configuration sanity (assumed at construction, never written) ----------------
     ('config_sane', 'self._config.segment_size_tx_initial > 0 and self._send_segment_size_min > 0 and '
-                    'self._do_send_ack_inter and self._do_send_ack_final and '
+                    'self._do_send_ack_inter and self._do_send_ack_final and self._config.keepalive_time >= 0 and '
                     'not contains(self._config.enable_test, "private_extensions")'),
     # --- I2 transfer in progress -------------------------------------------------------
     ('tx_none', '(self._tx_tmp is None) == (self._tx_length is None)'),
@@ -126,7 +129,8 @@ INVARIANTS = {'ContactHandler': [
     ('rx_done_tx_files_distinct', 'implies(self._tx_tmp is not None, forall(i, 0, length(self._rx_bundles), '
                                   'not eqv(self._rx_bundles[i].file, self._tx_tmp.file)))', ['C01']),
     # --- numbers kept for the D-Bus parameter view are wire values (unsigned) -------------------------
-    ('sess_params_nonneg', 'forall(k, "Str", implies(union_is(lookup(self._sess_parameters, k), "int"), '
+    ('sess_params_nonneg', 'forall(k, "Str", implies(contains(self._sess_parameters, k) and '
+                           'union_is(lookup(self._sess_parameters, k), "int"), '
                            'union_get(lookup(self._sess_parameters, k), "int") >= 0))', ['C18']),
     ('sessinit_wire_values', 'implies(self._sessinit_peer is not None, self._sessinit_peer.keepalive >= 0 and '
                              'self._sessinit_peer.segment_mru >= 0 and self._sessinit_peer.transfer_mru >= 0) and '
